@@ -3,26 +3,27 @@ import vf
 
 META = {
     "claimed": True,
-    "text": ("Coq theorems over a Gallina model (coq/layoutops/LayoutOps.v) of rten-tensor's layout-changing functions on "
+    "text": ("Coq theorems over a Gallina model (coq/layoutops/LayoutOps.v, ModelC09.v) of rten-tensor's layout-changing functions on "
              "(offset, shape, strides): for an ARBITRARY source view, each of slice (ranges, steps, negative indices), slice_axis, "
-             "index_axis, permuted/transposed/move_axis, broadcast, squeezed, insert_axis, remove_axis, merge_axes, split and "
-             "reshaped_for_view returns a view whose denotation (storage elements at its row-major offsets) equals the NumPy-style "
-             "reference operation (coq/layoutops/ArrayModel.v: shape + row-major element list, no strides) applied to the source's "
-             "denotation, and returns an error/panic exactly when the reference is undefined (views: positive steps and in-bounds "
-             "ranges only; reshape-for-view additionally requires contiguity); SliceRange::clamp/resolve/index_range and the "
-             "IndexRange iterator are proved to select exactly Python's slice indices, negative steps included; element counts equal "
-             "the reference's (never lossy). Chains compose because every theorem is for an arbitrary source layout. The model is "
-             "tied to the code by running random operation chains (length <= 6, rank <= 4, contiguous/permuted/stepped/broadcast/"
-             "overlapping sources, out-of-range, zero-step and i64-extreme slice values) and an exhaustive SliceRange small scope "
-             "through the public API and comparing shape, strides and elements with the model inside Coq; independently each "
-             "implementation result is compared with the reference applied to the implementation's previous tensor, which yields "
-             "concrete replay inputs. to_vec, to_contiguous, map, copy_from, copy_into_slice, to_tensor, get(), the static-rank "
-             "(NdLayout) code paths, slice_copy's copy kernel, reshaped (copy path) and clip_dim are exercised on the same views "
-             "and compared with the reference, but not proved (copy.rs kernels: correspondence only)."),
+             "index_axis, permuted/transposed/move_axis, broadcast, squeezed, insert_axis, remove_axis, merge_axes, split, "
+             "reshaped_for_view, slice_copy (negative steps, clamped bounds), reshaped, to_contiguous, clip_dim and append returns a "
+             "result whose denotation (storage elements at its row-major offsets) equals the NumPy-style reference operation "
+             "(coq/layoutops/ArrayModel.v: shape + row-major element list, no strides) applied to the source's denotation, and reports "
+             "an error/panic only where the reference is undefined or a documented contract applies (views: positive steps and "
+             "in-bounds ranges; view-reshape: contiguity; append: capacity); SliceRange::clamp/resolve/index_range and the IndexRange "
+             "iterator are proved to select exactly Python's slice indices, negative steps included; chains compose "
+             "(C09_chain_matches_reference) and element counts equal the reference's (C09_never_lossy). The model is tied to the code "
+             "by running random operation chains (length <= 6, rank <= 4, contiguous/permuted/stepped/broadcast/overlapping sources, "
+             "out-of-range, zero-step and i64-extreme slice values) and an exhaustive SliceRange small scope through the public API "
+             "and comparing shape, strides and elements with the model inside Coq; independently each implementation result is "
+             "compared with the reference applied to the implementation's previous tensor, which yields concrete replay inputs. "
+             "to_vec, to_contiguous, map, copy_from, copy_into_slice, to_tensor, get() and the static-rank (NdLayout) code paths are "
+             "exercised on the same views and compared with the reference, but not proved (copy.rs kernels: correspondence only). "
+             "Six defects found this way (F50-F55, incl. uninitialised memory returned by slice_copy) are repaired in /repo."),
     "note": ("Trusted: Coq kernel; the correspondence sample (a test, not a proof); iter() as the observer of element order "
-             "(C07's subject). Exact (non-wrapping) usize arithmetic is assumed in the theorems except for stride*step in "
-             "slice_layout, which the model also evaluates mod 2^64; append is not covered. copy.rs kernels, NdLayout variants, "
-             "clip_dim and the Vec-producing paths are correspondence-only."),
+             "(C07's subject). Exact (non-wrapping) usize arithmetic is assumed in the theorems (agree runs the wrapping model; the two "
+             "coincide unless a size/stride product reaches 2^64, proved for slice); the error direction of slicing assumes sizes <= "
+             "isize::MAX. copy.rs kernels and NdLayout variants are correspondence-only."),
     "technique": "Coq proof (denotation of strided views against an index-function array model) + model/implementation correspondence",
 }
 GROUP = "layoutops"
@@ -57,8 +58,8 @@ def main(ctx):
                 "distinct = distinct input lines")
     ctx.trusted += ["observer: TensorView::iter() (element order; property C07) and shape()/strides()",
                     "modelled, not verified: SmallVec insert/remove, Iterator::max_by_key (last maximum), isize::clamp, usize::div_ceil",
-                    "correspondence only (not proved): copy.rs kernels (to_vec, to_contiguous, map, copy_from, copy_into_slice, "
-                    "copy_range_into_slice), NdLayout code paths, clip_dim, reshaped's copy path"]
+                    "correspondence only (not proved): the loop structure of the copy.rs kernels (to_vec, to_contiguous, map, copy_from, "
+                    "copy_into_slice, copy_range_into_slice, copy_into), NdLayout code paths, Vec::with_capacity's exact capacity"]
     ctx.assumptions += ["usize arithmetic on strides/offsets does not overflow (C06's obligation), except stride*step in slice_layout "
                         "which the model evaluates mod 2^64"]
     ctx.audit(GROUP, "tensor")
